@@ -147,7 +147,7 @@ type scenario struct {
 	name string
 	run  func(c *simCluster)
 	size int
-	// static: no membership change, no snapshot: the schedule is also run under the abstract shadow (vh raft abs)
+	// static: no membership change: the schedule is also run under the abstract shadow (vh raft abs)
 	static bool
 }
 
@@ -379,7 +379,52 @@ var scenarios = []scenario{
 			c.doClient(c.nodes[2], []entryType{entryUpdate})
 			c.replicate(2)
 		}
-	}, 3, false},
+	}, 3, true},
+	{"install-over-conflicting-suffix", func(c *simCluster) {
+		// the deposed leader holds a long uncommitted suffix of its own term; the new leader commits other
+		// entries at those indices, snapshots and compacts them; the old leader then gets the snapshot: its
+		// log has an entry at the snapshot index, of another term
+		c.elect(1)
+		c.replicate(1)
+		c.doClient(c.nodes[1], []entryType{entryUpdate})
+		c.replicate(1)
+		for k := 0; k < 25; k++ {
+			c.doClient(c.nodes[1], []entryType{entryUpdate, entryUpdate, entryUpdate}) // nobody hears of these
+		}
+		c.loseQuorum(1)
+		c.disconnect(2, 1)
+		c.disconnect(3, 1)
+		c.electWith(2, 3)
+		// the new leader cannot reach node 1
+		contact := func(up bool) {
+			if n := c.nodes[2]; n.cur == Leader {
+				if rp := n.l.repls[1]; rp != nil {
+					u := replUpdate{&rp.status, noContact{time.Now(), errSimAbort}}
+					if up {
+						u = replUpdate{&rp.status, noContact{time.Time{}, nil}}
+					}
+					c.upd[2] = append(c.upd[2], u)
+					for len(c.upd[2]) > 0 && n.cur == Leader {
+						c.doReplUpdate(n)
+					}
+				}
+			}
+		}
+		contact(false)
+		for k := 0; k < 14; k++ {
+			c.doClient(c.nodes[2], []entryType{entryUpdate, entryUpdate, entryUpdate})
+			c.replicate(2, 3)
+		}
+		for k := 0; k < 3; k++ {
+			c.snapshotStep(c.nodes[2])
+		}
+		c.doClient(c.nodes[2], []entryType{entryUpdate})
+		c.replicate(2, 3)
+		contact(true)
+		c.replicate(2) // now node 1 as well
+		c.doClient(c.nodes[2], []entryType{entryUpdate})
+		c.replicate(2)
+	}, 3, true},
 	{"snapshot-compaction-then-updates", func(c *simCluster) {
 		c.elect(1)
 		c.replicate(1)
@@ -402,7 +447,7 @@ var scenarios = []scenario{
 		}
 		c.doClient(c.nodes[1], []entryType{entryUpdate, entryRead})
 		c.replicate(1)
-	}, 3, false},
+	}, 3, true},
 	{"lagging-follower-installs-snapshot", func(c *simCluster) {
 		c.elect(1)
 		c.replicate(1, 2) // node 3 hears nothing
@@ -418,7 +463,7 @@ var scenarios = []scenario{
 		c.replicate(1)
 		c.crash(3, true)
 		c.replicate(1)
-	}, 3, false},
+	}, 3, true},
 	{"compaction-at-follower-match-boundary", func(c *simCluster) {
 		// follower 3 stops exactly at the last index of the leader's first segment; the leader goes on
 		// with follower 2, takes a snapshot and compacts that segment; then talks to follower 3 again
@@ -452,7 +497,7 @@ var scenarios = []scenario{
 			c.doFlr(n, 3)
 			c.replicate(1)
 		}
-	}, 3, false},
+	}, 3, true},
 	{"promote-with-slow-rounds", func(c *simCluster) {
 		c.slow = true
 		for _, n := range c.nodes {
@@ -470,6 +515,30 @@ var scenarios = []scenario{
 			c.replicate(1)
 		}
 	}, 3, false},
+	{"leader-removes-itself-leaving-one-voter", func(c *simCluster) {
+		// two voters; the leader removes itself while the other voter is cut off: the removal must not
+		// commit on the leader alone, and the leader must not shut down before it is committed
+		c.elect(1)
+		c.replicate(1)
+		c.doClient(c.nodes[1], []entryType{entryUpdate})
+		c.replicate(1)
+		c.changeConfigWith(1, func(cfg *Config) {
+			nn := cfg.Nodes[1]
+			nn.Action = Remove
+			cfg.Nodes[1] = nn
+		})
+		// node 2 hears nothing
+		if n := c.nodes[1]; n.cur == Leader && !n.stopped {
+			c.doClient(n, []entryType{entryUpdate})
+			for len(c.upd[1]) > 0 && n.cur == Leader {
+				c.doReplUpdate(n)
+			}
+		}
+		// now node 2 is reachable again
+		if n := c.nodes[1]; n.cur == Leader && !n.stopped {
+			c.replicate(1)
+		}
+	}, 2, false},
 	{"single-voter-grows", func(c *simCluster) {
 		c.elect(1)
 		_ = c.addNode(2, nil)
